@@ -263,6 +263,13 @@ func genPool(r *lib.Rng, st map[string]int) *c10Pool {
 		finishPool(r, p)
 		return p
 	}
+	if r.Chance(1, 8) {
+		genShared(r, p, st)
+		parent := p.Seq
+		finishPool(r, p)
+		p.Seq = parent // the parent sequence stays an observed operand
+		return p
+	}
 	ctk := 0
 	if r.Chance(1, 4) {
 		ctk = r.Range(1, 3)
@@ -362,6 +369,68 @@ func genSubtol(r *lib.Rng, p *c10Pool, st map[string]int) {
 	st["class_subtol"]++
 }
 
+// genShared: operands that SHARE backing storage. One parent Sequence is cut with Sequence.Slice
+// into pieces (a piece that does not end where the parent ends has spare capacity behind it: the
+// rest of the parent); LineStrings are built from the pieces with NewLineString and placed as
+// first / middle / last member of several collections, some of which share the same piece. The
+// parent sequence, every piece and every collection are operands of the history, so that a write
+// through one of them shows in the others.
+func genShared(r *lib.Rng, p *c10Pool, st map[string]int) {
+	ct := geom.DimXY
+	if r.Chance(1, 3) {
+		ct = geom.DimXYZ
+	}
+	dim := ct.Dimension()
+	n := r.Range(7, 10)
+	var fs []float64
+	last := xy{-1, -1}
+	for k := 0; k < n; {
+		q := pt(r)
+		if q == last {
+			continue
+		}
+		last = q
+		fs = append(fs, float64(q.x), float64(q.y))
+		if dim == 3 {
+			fs = append(fs, float64(10+k))
+		}
+		k++
+	}
+	parent := geom.NewSequence(fs, ct)
+	cut := r.Range(2, n-3)
+	pieceA := parent.Slice(0, cut+1)           // spare capacity: the rest of the parent
+	pieceM := parent.Slice(1, cut+1+r.Intn(2)) // middle piece, spare capacity too
+	pieceB := parent.Slice(cut, n)             // ends where the parent ends
+	la, lm, lb := geom.NewLineString(pieceA), geom.NewLineString(pieceM), geom.NewLineString(pieceB)
+	force := func(g geom.Geometry) geom.Geometry { return g.ForceCoordinatesType(ct) }
+	q1 := pt(r)
+	pnt := force(geom.NewPointXY(float64(q1.x), float64(q1.y)).AsGeometry())
+	x0, y0 := float64(r.Intn(5)), float64(r.Intn(5))
+	poly := force(geom.NewPolygonXY([]float64{x0, y0, x0 + 2, y0, x0 + 2, y0 + 2, x0, y0 + 2, x0, y0}).AsGeometry())
+	lx := force(geom.NewLineStringXY(float64(r.Intn(8)), 0, float64(r.Intn(8)), 7, 3, 3).AsGeometry())
+	firstPiece := []geom.LineString{la, lm}[r.Intn(2)]
+	gc := func(gs ...geom.Geometry) geom.Geometry { return geom.NewGeometryCollection(gs).AsGeometry() }
+	p.G = []geom.Geometry{
+		gc(firstPiece.AsGeometry(), pnt, poly),                              // piece first, members with coordinates behind it
+		gc(firstPiece.AsGeometry(), lx),                                     // a second collection sharing that piece
+		gc(pnt, lm.AsGeometry(), poly),                                      // piece in the middle
+		gc(poly, pnt, lb.AsGeometry()),                                      // piece last
+		gc(gc(la.AsGeometry(), pnt), lb.AsGeometry()),                       // nested, piece first
+		lb.AsGeometry(),                                                     // sibling piece on its own
+		la.AsGeometry(),                                                     // the first piece on its own
+		geom.NewMultiLineString([]geom.LineString{la, lm, lb}).AsGeometry(), // all pieces together
+	}
+	if r.Bool() {
+		p.G[0], p.G[1] = p.G[1], p.G[0]
+	}
+	for range p.G {
+		p.Kinds = append(p.Kinds, "shared")
+	}
+	p.Seq = parent
+	p.Class = "shared" + map[geom.CoordinatesType]string{geom.DimXY: "", geom.DimXYZ: "Z"}[ct]
+	st["class_"+p.Class]++
+}
+
 func finishPool(r *lib.Rng, p *c10Pool) {
 	// auxiliary shared values
 	p.Seq = p.G[0].DumpCoordinates()
@@ -400,6 +469,12 @@ func (p *c10Pool) store() string {
 }
 
 func seqObs(s geom.Sequence) string {
+	o := seqObsRaw(s)
+	keepResult(func() string { return seqObsRaw(s) }, o)
+	return o
+}
+
+func seqObsRaw(s geom.Sequence) string {
 	var sb strings.Builder
 	fmt.Fprintf(&sb, "S%d:%d:", int(s.CoordinatesType()), s.Length())
 	for i := 0; i < s.Length(); i++ {
